@@ -22,5 +22,10 @@ McMenuR == {<<"r">>, <<"r2">>, <<"r", "r2">>, <<"t">>, <<"t", "r">>}
 \* a signature appended to t by somebody else
 McMenuA == {<<"t">>, <<"t3">>, <<"t", "t3">>, <<"b">>, <<"u", "t3">>}
 McMenuRA == McMenuR \cup McMenuA
+\* the transaction's own carrier: t / n and their variants (one own-carrier form per block), in two blocks of a branch, on two forks,
+\* in one block, inside a box
+McMenuO == {<<"t">>, <<"tv">>, <<"t", "tv">>, <<"bv">>, <<"n">>, <<"nv">>, <<"bv", "nv">>}
+McMenuOq == {<<"t">>, <<"tv">>, <<"t", "tv">>, <<"bv">>, <<"n">>, <<"nv">>}
+McMenuON == {<<"t">>, <<"tv">>}
 McMenuX == McMenu \cup {<<"w">>, <<"b", "w">>, <<"t", "w">>}
 ====
